@@ -8,6 +8,7 @@ from .rules import cas as R_cas
 from .rules import c10 as R_c10
 from .rules import c06 as R_c06
 from .rules import structs as R_st
+from .rules import formats as R_fm
 
 Q = ("quick", "thorough")
 T = ("thorough",)
@@ -202,6 +203,26 @@ PROPS = {
         level_note="Trusted: the walker template (cursor = first argument of f.align) and the skip-field idiom (`continue` under a test of the field); cross-class deviations of the pointer-size letter set (VarField/CntField translate only 'P') are listed as undecided because they were not confirmed as defects.",
         technique="sibling cross-check of functions implementing one scheme (path check on statement CFGs + table agreement)",
         trusted_base=["vstat.cfg"],
+        assumptions=[],
+    ),
+    "C14": dict(
+        title="Executable-format parsers report what the file encodes",
+        explanation=(
+            "Decides: (R-STRUCTREF) the ELF structure layouts declared in elf.py -- including the field-list edit scripts applied for "
+            "64-bit files, interpreted statement by statement -- equal the Elf32_/Elf64_ layouts of <elf.h> (16 layouts, vendored gcc "
+            "offsetof/sizeof table); (R-RECTAB) the S-record address-width table and the HEX/SREC record-type constants equal the "
+            "published formats; (R-CKSUM) record checksums control rejection on every path; (R-ENTRY) the entry point is stored in "
+            "the attribute the entrypoints property returns; (R-UNION) a query result that may be a section or a program header is "
+            "not used with a field of only one of them, and guarded copies are the ones used; (R-NAME/R-PRIV) no unresolved name "
+            "or never-stored private attribute in the 264 functions of the format modules. Does NOT decide values parsed from "
+            "arbitrary files, symbol-name decoding, offset arithmetic over tables; PE and Mach-O layouts are not compared (no "
+            "reference header available offline)."
+        ),
+        rules=[(R_fm.r_structref_elf, Q), (R_fm.r_rectab, Q), (R_fm.r_cksum, Q), (R_fm.r_entry, Q), (R_fm.r_union, Q), (R_fm.r_name_formats, Q), (R_fm.r_priv_formats, Q)],
+        level_text="partial: table = reference comparison for all 16 ELF layouts (with symbolic interpretation of the 64-bit edit scripts), CFG must-raise check of the two checksum comparisons, scope/attribute checks over every function of the six format modules; the tests open 8 sample files and never a corrupted record or a 64-bit note",
+        level_note="Trusted: vstat.structmodel (StructDefine language read from its docstring, natural-alignment layout, the closed set of edit idioms: any other statement on `fields` makes the class undecided); ref/elf_layout.json generated from /usr/include/elf.h with gcc (generator committed); ref/records.json hand-written.",
+        technique="table = vendored reference comparison with an interpreter of field-list edit scripts; must-raise on CFG; scope resolution",
+        trusted_base=["vstat.structmodel", "ref/elf_layout.json", "ref/records.json"],
         assumptions=[],
     ),
 }
